@@ -1,21 +1,15 @@
-"""Oracle for C08: bad objective values (NaN, +/-inf, overflow-sized entries, raised exception) injected at any single
-evaluation (or at all evaluations from some call on) are survived gracefully.  Runs the real dfols.solve, see RULE.
+"""Oracle for C19: results are reproducible (independent of the state of NumPy's global generator and of earlier calls
+in the same process) unless a documented random option is on, and the caller's x0 / bounds / user_params are never
+modified.  Runs the real dfols.solve three times per case, see RULE.
 
 Signatures:
-  C08:raised:<ExcType>:<module.function>   solve raised although the objective only returned bad values; the site is
-                                    the innermost dfols function the exception passed through
-  C08:exception_swallowed           the objective raised but solve returned normally
-  C08:exception_changed             the objective raised but a different exception reached the caller
-  C08:calls_after_exception         the objective was called again after it had raised
-  C08:budget_exceeded               more than maxfun calls
-  C08:eval_outside_bounds / C08:x_outside_bounds     bound guarantee lost under the fault
-  C08:x_not_finite / C08:x_not_evaluated             returned x not finite / not an evaluated point
-  C08:x_not_evaluated:projections   the same in a configuration with projections (returned x is a re-projection)
-  C08:nan_returned                  non-finite objective returned although an earlier evaluation was finite (no averaging)
-  C08:nan_incumbent                 the same with sample averaging
-  C08:worse_than_prefault_best      finite objective returned but larger than the best finite one seen before the fault
-  C08:success_flag_nonfinite_obj:<small_objective|rhoend|max_restarts|noise_level|other>
-                                    success flag attached to a non-finite objective, by the kind of success message
+  C19:sequence_differs:global_rng       evaluation sequences differ between np.random.seed(a) and np.random.seed(b)
+  C19:sequence_differs:repeated_call    evaluation sequences differ between two calls in a row in one process
+  C19:rng_in_projection_init            the same, in a configuration with projections and starting inside the
+                                        initialisation phase (Controller.initialise_coordinate_directions draws random
+                                        sign patterns / directions when the projected coordinate steps are rank deficient)
+  C19:result_differs:global_rng / C19:result_differs:repeated_call    same evaluations, different result object
+  C19:x0_modified  C19:bounds_modified  C19:user_params_modified      caller data changed by solve
 """
 # ======================================================================================================================
 # shared core: problem specs, builders, recording objective wrapper.  This block is duplicated verbatim in
@@ -354,267 +348,192 @@ def merge_counts(dst, src):
 # ============================================================ end of shared core ======================================
 
 RULE = ("Cases: a random small least-squares problem (linear / Rosenbrock / mildly nonlinear, n=2..4) in one of the "
-        "configurations plain, bounds, scaled, proj (ball [+halfspace] [+box] projections), soft restarts, hard restarts, "
-        "avg (objfun_has_noise + nsamples 2..3 + additive noise from a private generator), avg with hard restarts, "
-        "regularised, diag (logging.save_diagnostic_info on).  A reference run gives nf; then for k in 1..nf (quick: 1, 2, last initialisation call, first call "
-        "after it, middle, nf-1, nf and one random k) and every fault kind (NaN, +inf, -inf, 1e200 in one or all entries, "
-        "raised exception) solve is re-run with that fault at call k; a few cases keep the fault at every call >= k "
-        "(k=1: all evaluations bad).  A case is non-trivial when the fault was really delivered (call k was reached) and "
-        "either it is a raised exception or some evaluation before call k had a finite objective (so the strongest "
-        "clause - finite result not worse than the pre-fault best - applies).")
+        "configurations default, bounded, scaled (scaling_within_bounds), proj (convex-constrained: ball [+halfspace] "
+        "[+box]), regression (n+1 < npt <= (n+1)(n+2)/2, optionally regression.num_extra_steps with geometry steps), "
+        "regularised (L1 term), plus deterministic soft / hard restarts and averaging of a deterministic objective; no "
+        "option that is documented as random or that draws random directions is enabled (init.random_initial_directions, "
+        "growing.* with growing.ndirs_initial < npt-1, restarts.increase_npt, regression.momentum_extra_steps, "
+        "init.run_in_parallel).  solve is called three times on fresh but identical caller-side objects: after "
+        "np.random.seed(a), after np.random.seed(b) with b != a, and once more immediately afterwards without reseeding.  "
+        "The recorded evaluation points (bit patterns), the residuals handed back and every field of the result must "
+        "coincide, and x0 / bound arrays / user_params must be bit-identical to copies taken before each call.  A case "
+        "is non-trivial when the run left the initialisation phase (nf > npt) - the global generator always differs.")
 
-CFGS = ['plain', 'bounds', 'scaled', 'proj', 'soft', 'hard', 'avg', 'avg_hard', 'reg', 'diag']
-KINDS = ['nan', 'pinf', 'ninf', 'big', 'raise']
-XTOL = 1e-8          # 'one of the evaluated points (to rounding)'
-OBJ_RTOL = 1e-12     # slack on 'not larger than the best pre-fault objective'
+CFGS = ['default', 'bounded', 'scaled', 'proj', 'regression', 'regularised', 'restarts', 'averaging']
 
 
-def make_spec(seed, i, cfg):
-    rng = np.random.default_rng((seed, i, 8))
-    base = {'plain': 'plain', 'bounds': 'bounds', 'scaled': 'scaled', 'proj': 'proj', 'reg': 'reg'}.get(cfg)
+def make_spec(seed, i, j):
+    rng = np.random.default_rng((seed, i, j, 19))
+    cfg = CFGS[int(rng.integers(0, len(CFGS)))]
+    base = {'default': 'plain', 'bounded': 'bounds', 'scaled': 'scaled', 'proj': 'proj', 'regularised': 'reg'}.get(cfg)
     if base is None:
         base = str(rng.choice(['plain', 'bounds']))
     spec = gen_problem(rng, base)
     spec['cfg'] = cfg
     n = spec['n']
+    heavy = base in ('proj', 'reg')
     params = {}
-    spec['maxfun'] = int(rng.choice([12, 25, 40, 60]))
+    spec['maxfun'] = int(rng.choice([20, 40, 80])) if not heavy else int(rng.choice([8, 12, 16]))
     spec['rhoend'] = hx(float(rng.choice([1e-8, 1e-5, 1e-3])))
-    if cfg in ('soft', 'hard', 'avg_hard'):
+    if base == 'reg':
+        params['func_tol.max_iters'] = int(rng.choice([30, 60]))
+    if cfg == 'regression':
+        spec['npt'] = n + 1 + int(rng.integers(1, (n + 1) * (n + 2) // 2 - n))
+        if rng.random() < 0.5:
+            params['regression.num_extra_steps'] = int(rng.integers(1, 3))
+    if cfg == 'restarts':
         params['restarts.use_restarts'] = True
         params['restarts.max_unsuccessful_restarts'] = int(rng.integers(1, 4))
-        if cfg != 'soft':
+        if rng.random() < 0.5:
             params['restarts.use_soft_restarts'] = False
             if rng.random() < 0.5:
                 params['restarts.hard.use_old_rk'] = False
         if rng.random() < 0.5:
             params['restarts.rhoend_scale'] = float(rng.choice([0.1, 0.5]))
-        spec['rhoend'] = hx(float(rng.choice([1e-3, 1e-2])))      # make restarts happen within the budget
-        spec['maxfun'] = int(rng.choice([40, 60, 80]))
-    if cfg in ('avg', 'avg_hard'):
-        spec['has_noise'] = True
+        spec['rhoend'] = hx(float(rng.choice([1e-3, 1e-2])))
+    if cfg == 'averaging':
         spec['nsamples'] = int(rng.integers(2, 4))
-        spec['noise'] = hx(float(rng.choice([1e-3, 1e-2])))
-        spec['noise_seed'] = int(rng.integers(0, 2 ** 31 - 1))
-        spec['maxfun'] = int(rng.choice([30, 50, 80]))
-        if cfg == 'avg':
-            params['restarts.max_unsuccessful_restarts'] = int(rng.integers(1, 4))
-    if cfg == 'reg':                              # S-FISTA / Dykstra loops are slow in pure Python: keep these small
-        spec['maxfun'] = int(rng.choice([8, 12, 16]))
-        params['func_tol.max_iters'] = int(rng.choice([30, 60]))
-    if cfg == 'proj':
-        spec['maxfun'] = int(rng.choice([8, 12, 16]))
-    if cfg == 'diag':                             # same as plain/bounds but with the diagnostic table switched on
+        if rng.random() < 0.5:
+            spec['has_noise'] = True            # noise defaults (restarts, gamma_dec ...) on a deterministic objective
+            params['restarts.max_unsuccessful_restarts'] = int(rng.integers(1, 3))
+    if rng.random() < 0.3:
         params['logging.save_diagnostic_info'] = True
         params['logging.save_poisedness'] = bool(rng.random() < 0.5)
-        if rng.random() < 0.4:
-            params['logging.save_xk'] = True
-            params['logging.save_rk'] = True
-    if cfg in ('plain', 'bounds', 'diag') and rng.random() < 0.3:
-        spec['npt'] = n + 1 + int(rng.integers(1, n + 1))          # regression set
+    if rng.random() < 0.2:
+        spec['x0_int'] = True                    # integer x0 array (solve converts with astype)
+        spec['x0'] = hx(np.round(unhx(spec['x0'])))
+        if spec.get('lo') is not None and not spec.get('scaling'):
+            lo, hi, x0 = unhx(spec['lo']), unhx(spec['hi']), unhx(spec['x0'])
+            spec['lo'], spec['hi'] = hx(np.minimum(lo, x0 - 0.5)), hx(np.maximum(hi, x0 + 0.5))
+    spec['seed_a'] = int(rng.integers(0, 2 ** 31 - 1))
+    spec['seed_b'] = int(rng.integers(0, 2 ** 31 - 1))
+    if spec['seed_b'] == spec['seed_a']:
+        spec['seed_b'] += 1
     spec['params'] = enc_params(params)
     return fix_radii(spec)
 
 
-HEAVY = ('proj', 'reg')
-
-
 def tasks(seed, tier):
-    """one problem per (rep, cfg); its fault list is split over `parts` tasks so that no task runs for long"""
-    reps = 5 if tier == 'quick' else 16
-    out = []
-    i = 0
-    for rep in range(reps):
-        for cfg in CFGS:
-            if tier == 'quick':
-                parts = 3 if cfg in HEAVY else 1
-            else:
-                parts = 12 if cfg in HEAVY else 3
-            for p in range(parts):
-                out.append(dict(seed=int(seed), i=i, cfg=cfg, tier=tier, part=p, parts=parts))
-            i += 1
-    return out
+    ntasks, per = (64, 6) if tier == 'quick' else (480, 16)
+    return [dict(seed=int(seed), i=i, count=per, tier=tier) for i in range(ntasks)]
 
 
-def _in_bounds(P, x):
-    ok = True
-    if P.lo is not None:
-        ok = ok and bool(np.all(x >= P.lo))
-    if P.hi is not None:
-        ok = ok and bool(np.all(x <= P.hi))
-    return ok
+def _bits(a):
+    if a is None:
+        return None
+    a = np.asarray(a)
+    return (str(a.dtype), a.shape, a.tobytes())
 
 
-def success_class(msg):
-    for key, name in (('sufficiently small', 'small_objective'), ('rhoend', 'rhoend'), ('unsuccessful restarts', 'max_restarts'),
-                      ('noise level', 'noise_level')):
-        if key in msg:
-            return name
-    return 'other'
+def _snapshot(P):
+    return dict(x0=_bits(P.x0), lo=_bits(P.lo), hi=_bits(P.hi),
+                params=copy.deepcopy(P.user_params), params_types={k: type(v) for k, v in P.user_params.items()})
 
 
-def raise_site(exc):
-    """innermost dfols frame the exception passed through, as 'module.function'"""
-    import traceback
-    site = 'outside_dfols'
-    for fr in traceback.extract_tb(exc.__traceback__):
-        d, f = os.path.split(fr.filename)
-        if os.path.basename(d) == 'dfols':
-            site = '%s.%s' % (f[:-3] if f.endswith('.py') else f, fr.name)
-    return site
+def _result_key(soln, exc):
+    if exc is not None:
+        return ('raised', type(exc).__name__, str(exc))
+    di = soln.diagnostic_info
+    return dict(x=_bits(soln.x), resid=_bits(soln.resid), obj=_bits(soln.obj), jacobian=_bits(soln.jacobian),
+                nf=int(soln.nf), nx=int(soln.nx), nruns=int(soln.nruns), flag=int(soln.flag), msg=str(soln.msg),
+                xmin_eval_num=_bits(soln.xmin_eval_num), jacmin_eval_nums=_bits(soln.jacmin_eval_nums),
+                diag=None if di is None else (tuple(di.columns), len(di), _bits(di['rho'].to_numpy(dtype=float)),
+                                              _bits(di['delta'].to_numpy(dtype=float)), _bits(di['fk'].to_numpy(dtype=float))))
 
 
-def check_case(spec, fault):
-    """run one faulted case; returns (violations, info)"""
-    P = build(spec, fault)
-    soln, exc = run_solve(P)
-    rec = P.rec
-    k, kind, which, persist = fault
-    data = dict(spec=spec, fault=list(fault))
+def check_case(spec):
     V = []
+    info = dict(exit=None, nontrivial=False, cfg=spec['cfg'], rng_consumed=False)
 
     def viol(sig, what, **extra):
-        d = dict(data)
-        d['expect'] = sig
+        d = dict(spec=spec, expect=sig)
         d.update(extra)
         V.append(dict(signature=sig, what=what, data=d))
 
-    info = dict(delivered=rec.delivered_at is not None, nontrivial=False, flag=None, msg=None)
-    if rec.delivered_at is None:
-        return V, info                      # the run ended before call k (possible only if the solver is not deterministic)
-    prefault = [rec.obj(j) for j in range(min(k - 1, len(rec.rs)))]
-    finite_before = [v for v in prefault if math.isfinite(v)]
-    averaging = spec.get('nsamples', 1) != 1
-
-    if kind == 'raise':
-        info['nontrivial'] = True
-        if exc is None:
-            viol('C08:exception_swallowed', 'objective raised at call %d but solve returned flag %s (%s)'
-                 % (rec.delivered_at, soln.flag, soln.msg), result=result_summary(soln))
-        elif exc is not rec.exc:
-            viol('C08:exception_changed', 'objective raised FaultError at call %d but solve raised %s: %s'
-                 % (rec.delivered_at, type(exc).__name__, exc))
-        if rec.calls_after_exc > 0:
-            viol('C08:calls_after_exception', '%d further objective calls after the exception raised at call %d'
-                 % (rec.calls_after_exc, rec.delivered_at))
-        info['flag'] = 'raised'
-        return V, info
-
-    info['nontrivial'] = len(finite_before) > 0
-    if exc is not None:
-        site = raise_site(exc)
-        viol('C08:raised:%s:%s' % (type(exc).__name__, site), 'fault %s at call %d%s made solve raise %s: %s (raised through %s)'
-             % (kind, k, ' on' if persist else '', type(exc).__name__, str(exc)[:200], site))
-        info['flag'] = 'exception:' + type(exc).__name__
-        return V, info
-    info['flag'], info['msg'] = int(soln.flag), str(soln.msg)
-    if soln.flag == soln.EXIT_INPUT_ERROR:
-        raise RuntimeError('oracle C08 generated an invalid input: %s / %r' % (soln.msg, spec))
-    # budget and bounds
-    if rec.ncalls > spec['maxfun']:
-        viol('C08:budget_exceeded', '%d objective calls with maxfun=%d' % (rec.ncalls, spec['maxfun']))
-    for j, xj in enumerate(rec.xs):
-        if not _in_bounds(P, xj):
-            viol('C08:eval_outside_bounds', 'call %d evaluated outside the bounds' % (j + 1), call=j + 1, x=hx(xj))
-            break
-    x = np.asarray(soln.x, dtype=float)
-    if not np.all(np.isfinite(x)):
-        viol('C08:x_not_finite', 'returned x is not finite: %s' % x, result=result_summary(soln))
-    else:
-        if not _in_bounds(P, x):
-            viol('C08:x_outside_bounds', 'returned x violates the bounds', result=result_summary(soln))
-        dist = min(float(np.max(np.abs(x - xj) / (1.0 + np.abs(xj)))) for xj in rec.xs)
-        if not dist <= XTOL:
-            # with projections the solver re-runs Dykstra on the stored point when it reports it: own class
-            viol('C08:x_not_evaluated:projections' if P.projections else 'C08:x_not_evaluated', 'returned x is not one of the %d evaluated points (closest differs by %.3g)'
-                 % (len(rec.xs), dist), result=result_summary(soln))
-    obj = float(soln.obj)
-    if soln.flag == soln.EXIT_SUCCESS and not math.isfinite(obj):
-        viol('C08:success_flag_nonfinite_obj:' + success_class(soln.msg), 'success flag (%s) with objective %r after fault '
-             '%s from call %d%s' % (soln.msg, obj, kind, k, ' on' if persist else ' only'), result=result_summary(soln))
-    if finite_before:
-        best = min(finite_before)
-        if not math.isfinite(obj):
-            sig = 'C08:nan_incumbent' if averaging else 'C08:nan_returned'
-            viol(sig, 'fault %s at call %d: returned objective %r although %d earlier evaluations were finite (best %.6g); '
-                 'flag %d (%s)' % (kind, k, obj, len(finite_before), best, soln.flag, soln.msg),
-                 result=result_summary(soln))
-        elif not averaging and obj > best + OBJ_RTOL * abs(best):
-            viol('C08:worse_than_prefault_best', 'fault %s at call %d: returned objective %.17g > best finite objective '
-                 '%.17g seen before the fault; flag %d (%s)' % (kind, k, obj, best, soln.flag, soln.msg),
-                 result=result_summary(soln), best=hx(best))
+    runs = []
+    for label, seed_np in (('seed_a', spec['seed_a']), ('seed_b', spec['seed_b']), ('again', None)):
+        P = build(spec)
+        before = _snapshot(P)
+        if seed_np is not None:
+            np.random.seed(seed_np)
+        st0 = np.random.get_state()
+        with warnings.catch_warnings(), np.errstate(all='ignore'), _QuietStderr():
+            warnings.simplefilter('ignore')
+            try:
+                soln, exc = dfols.solve(P.rec, P.x0, **P.kw), None
+            except Exception as ex:
+                soln, exc = None, ex
+        st1 = np.random.get_state()
+        consumed = not (st0[2] == st1[2] and np.array_equal(st0[1], st1[1]))
+        info['rng_consumed'] = info['rng_consumed'] or consumed
+        after = _snapshot(P)
+        # caller data untouched
+        if after['x0'] != before['x0']:
+            viol('C19:x0_modified', 'run %s: the caller\'s x0 array was modified by solve' % label, run=label)
+        if after['lo'] != before['lo'] or after['hi'] != before['hi']:
+            viol('C19:bounds_modified', 'run %s: the caller\'s bound arrays were modified by solve' % label, run=label)
+        if after['params'] != before['params'] or after['params_types'] != before['params_types'] \
+                or list(after['params']) != list(before['params']):
+            viol('C19:user_params_modified', 'run %s: the caller\'s user_params dict was modified by solve: %r -> %r'
+                 % (label, before['params'], after['params']), run=label)
+        if soln is not None and soln.flag == soln.EXIT_INPUT_ERROR:
+            raise RuntimeError('oracle C19 generated an invalid input: %s / %r' % (soln.msg, spec))
+        runs.append(dict(label=label, xs=[x.tobytes() for x in P.rec.xs], rs=[r.tobytes() for r in P.rec.rs],
+                         res=_result_key(soln, exc), soln=soln, exc=exc, consumed=consumed, rec=P.rec))
+    ref = runs[0]
+    info['exit'] = ('raised %s' % type(ref['exc']).__name__) if ref['exc'] is not None else '%d %s' % (ref['soln'].flag, ref['soln'].msg)
+    npt = spec.get('npt') or spec['n'] + 1
+    ns = spec.get('nsamples', 1)
+    info['nontrivial'] = len(ref['xs']) > npt * ns
+    for other in runs[1:]:
+        how = 'np.random.seed(%d) vs np.random.seed(%d)' % (spec['seed_a'], spec['seed_b']) if other['label'] == 'seed_b' \
+            else 'first call vs third call in the same process'
+        if other['xs'] != ref['xs']:
+            first = next((t for t, (a, b) in enumerate(zip(ref['xs'], other['xs'])) if a != b), min(len(ref['xs']), len(other['xs'])))
+            in_init = first < npt * ns
+            if spec.get('proj') and in_init:
+                sig = 'C19:rng_in_projection_init'
+            else:
+                sig = 'C19:sequence_differs:' + ('global_rng' if other['label'] == 'seed_b' else 'repeated_call')
+            xa = ref['rec'].xs[first] if first < len(ref['xs']) else None
+            xb = other['rec'].xs[first] if first < len(other['xs']) else None
+            viol(sig, '%s: evaluation sequences differ from call %d on (%d vs %d calls; x = %s vs %s); the solver %s the '
+                 'global generator' % (how, first + 1, len(ref['xs']), len(other['xs']), xa, xb,
+                                       'drew from' if other['consumed'] else 'did not draw from'),
+                 run=other['label'], first_call=first + 1)
+        elif other['rs'] != ref['rs']:
+            raise RuntimeError('oracle C19: objective wrapper is not deterministic for %r' % (spec,))
+        elif other['res'] != ref['res']:
+            fields = [k for k in ref['res'] if ref['res'][k] != other['res'][k]] if isinstance(ref['res'], dict) and \
+                isinstance(other['res'], dict) else ['exception']
+            viol('C19:result_differs:' + ('global_rng' if other['label'] == 'seed_b' else 'repeated_call'),
+                 '%s: identical evaluation sequences but different results in fields %s' % (how, fields),
+                 run=other['label'], fields=fields)
     return V, info
 
 
-def choose_faults(spec, nf, rng, tier):
-    n = spec['n']
-    ns = spec.get('nsamples', 1)
-    npt = spec.get('npt') or n + 1
-    init_last = min(nf, npt * ns)
-    if tier == 'quick':
-        ks = {1, 2, init_last, init_last + 1, (init_last + nf) // 2, nf - 1, nf, int(rng.integers(1, nf + 1))}
-        ks = sorted(k for k in ks if 1 <= k <= nf)
-    else:
-        ks = list(range(1, nf + 1))
-    faults = []
-    for k in ks:
-        for kind in KINDS:
-            which = 'one' if rng.random() < 0.5 else 'all'
-            faults.append([k, kind, which, False])
-    # persistent faults: every evaluation from k on is bad (k=1: all of them)
-    pk = [1, min(nf, init_last + 1)] if tier == 'quick' else [1, 2, init_last, min(nf, init_last + 1), (init_last + nf) // 2]
-    for k in sorted(set(pk)):
-        for kind in (KINDS[:4] if tier != 'quick' else [KINDS[int(rng.integers(0, 4))], 'nan']):
-            faults.append([k, kind, 'one' if rng.random() < 0.5 else 'all', True])
-    return faults
-
-
 def run_task(task):
-    seed, i, cfg, tier = task['seed'], task['i'], task['cfg'], task['tier']
-    spec = make_spec(seed, i, cfg)
-    rng = np.random.default_rng((seed, i, 88))
-    stats = {'cfg': {}, 'kind': {}, 'exit_ref': {}, 'exit_faulted': {}, 'phase': {}, 'persist': {}, 'not_delivered': 0}
-    P = build(spec)
-    soln, exc = run_solve(P)
-    if exc is not None:
-        if isinstance(exc, RuntimeError) and 'Unable to generate suitable initial directions' in str(exc):
-            # fault-free behaviour of the projection initialisation (not a C08 matter): nothing to inject into
-            return dict(evaluations=0, nontrivial=0, violations=[], stats={'reference_raised_init_directions': 1}, sample=None)
-        raise RuntimeError('oracle C08: reference run raised %r for %r' % (exc, spec))
-    if soln.flag == soln.EXIT_INPUT_ERROR:
-        raise RuntimeError('oracle C08 generated an invalid input: %s / %r' % (soln.msg, spec))
-    nf = P.rec.ncalls
-    bump(stats['cfg'], cfg)
-    bump(stats['exit_ref'], '%d %s' % (soln.flag, soln.msg))
-    violations, evaluations, nontrivial = [], 0, 0
-    sample = None
-    seen = set()
-    npt = spec.get('npt') or spec['n'] + 1
-    init_last = npt * spec.get('nsamples', 1)
-    for fault in choose_faults(spec, nf, rng, tier)[task.get('part', 0)::task.get('parts', 1)]:
-        V, info = check_case(spec, fault)
+    seed, i = task['seed'], task['i']
+    stats = {'exit': {}, 'cfg': {}, 'rng_consumed_by_solver': {}}
+    violations, evaluations, nontrivial, sample = [], 0, 0, None
+    for j in range(task['count']):
+        spec = make_spec(seed, i, j)
+        V, info = check_case(spec)
         evaluations += 1
-        if not info['delivered']:
-            stats['not_delivered'] += 1
-            continue
         nontrivial += 1 if info['nontrivial'] else 0
-        bump(stats['kind'], fault[1])
-        bump(stats['persist'], 'persist' if fault[3] else 'single')
-        bump(stats['phase'], 'x0' if fault[0] <= spec.get('nsamples', 1) else 'init' if fault[0] <= init_last
-             else 'last' if fault[0] >= nf - 1 else 'main')
-        bump(stats['exit_faulted'], info['flag'] if info['msg'] is None else '%d %s' % (info['flag'], info['msg']))
-        for v in V:
-            if v['signature'] not in seen or len(violations) < 20:
-                violations.append(v)
-            seen.add(v['signature'])
-        if sample is None and info['nontrivial'] and fault[1] != 'raise' and fault[0] > init_last:
-            sample = dict(cfg=cfg, kind=spec['kind'], n=spec['n'], m=spec['m'], maxfun=spec['maxfun'], nf_reference=nf,
-                          fault=fault, exit='%s %s' % (info['flag'], info['msg']))
-    return dict(evaluations=evaluations, nontrivial=nontrivial, violations=violations, stats=stats, sample=sample)
+        bump(stats['exit'], info['exit'])
+        bump(stats['cfg'], info['cfg'])
+        if info['rng_consumed']:
+            bump(stats['rng_consumed_by_solver'], info['cfg'])
+        violations.extend(V)
+        if sample is None and info['nontrivial']:
+            sample = dict(cfg=info['cfg'], kind=spec['kind'], n=spec['n'], npt=spec.get('npt'), maxfun=spec['maxfun'],
+                          params=spec['params'], seeds=[spec['seed_a'], spec['seed_b']], exit=info['exit'])
+    return dict(evaluations=evaluations, nontrivial=nontrivial, violations=violations[:40], stats=stats, sample=sample)
 
 
 def replay(data):
-    V, info = check_case(data['spec'], data['fault'])
+    V, info = check_case(data['spec'])
     if not V:
         return None
     for v in V:
